@@ -15,10 +15,9 @@ structure TopInv (P : Prog) (s : Storage) : Prop where
   mapsInit : MapsInit s
   nodes : ∀ n r, alookup s.derived n = some r → RevOk P s n r
 
-theorem TopInv.toINV {P : Prog} {s : Storage} (h : TopInv P s)
-    (hev : ∀ n r, alookup s.derived n = some r → ∃ v R, BigN P s.srcs s.maps n v R) : INV P s [] :=
+theorem TopInv.toINV {P : Prog} {s : Storage} (h : TopInv P s) : INV P s [] :=
   ⟨h.epochPos, fun fr hfr => (by rw [h.stack] at hfr; cases hfr), h.srcTu, h.mapsInit,
-   fun n r hn _ => h.nodes n r hn, fun n r _ hb => (by cases hb), hev⟩
+   fun n r hn _ => h.nodes n r hn, fun n r _ hb => (by cases hb)⟩
 
 theorem TopInv.ofINV {P : Prog} {s : Storage} (h : INV P s []) (hst : s.stack = []) : TopInv P s :=
   ⟨hst, h.epochPos, h.srcTu, h.mapsInit, fun n r hn => h.nodes n r hn (fun hb => (by cases hb))⟩
